@@ -567,3 +567,105 @@ def ristretto(F, fe_ty):
         got = [(a[0], a[1]) for nm, a in logged if len(a) == 2 and a[0] is not None and a[1] is not None]
         ok = len(got) == 2 and all(any((same(p, w[0]) and same(q, w[1])) or (same(p, w[1]) and same(q, w[0])) for p, q in got) for w in want)
         yield inst, f, ok, ("compares X1 Y2 with Y1 X2 and X1 X2 with Y1 Y2" if ok else "the two field comparisons are %s" % ["%s ?= %s" % (show(p, 3), show(q, 3)) for p, q in got])
+
+
+# ------------------------------------------------------------------------------------------------ identity predicates (C17)
+def comparison_signature(F, fe_ty, f, args, tyenv=None):
+    """the field-level comparisons a predicate makes, as (sorted list of canonical differences, sorted list of Choice combinators)"""
+    radix = FM.radix_for(F, fe_ty)
+    CONST[0] = FM.FmModels(radix)
+    watch = (r"ConstantTimeEq for [\w:]*FieldElement\w+>::ct_eq$|FieldElement\w+ as subtle::ConstantTimeEq>::ct_eq$|FieldElement\w+>::is_zero$|"
+             r"subtle::Choice as core::ops::(BitAnd|BitOr|Not)>::(bitand|bitor|not)$|PartialEq for [\w:]*FieldElement\w+>::(eq|ne)$")
+    ret, ip, _ = FM.run(F, f, args, radix, watch=watch)
+    diffs, ops = [], []
+    for nm, a in ip.models.logged:
+        if re.search(r"(bitand|bitor|not)$", nm):
+            ops.append(re.search(r"(bitand|bitor|not)$", nm).group(1))
+            continue
+        if nm.endswith("is_zero"):
+            x = a[0] if a else None
+            dvalue = x
+        else:
+            dvalue = fadd(a[0], a[1], -1) if len(a) == 2 and a[0] is not None and a[1] is not None else None
+        if dvalue is None:
+            return None
+        # canonical up to sign: compare by the pair {d, -d}
+        n1, n2 = dvalue, fneg(dvalue)
+        diffs.append(min((n1[1], n1[2]), (n2[1], n2[2]), key=repr))
+    return sorted(diffs, key=repr), sorted(ops)
+
+
+def identity_predicates(F, fe_ty):
+    """yield (instance, fn, ok, msg): every `group::Group::is_identity` makes exactly the field comparisons of `ct_eq(self, &Self::identity())`"""
+    def gen(k=""):
+        return mk(F, EP, X=fvar("X" + k), Y=fvar("Y" + k), Z=fvar("Z" + k), T=fvar("T" + k))
+    ident = mk(F, EP, X=fconst(0), Y=one, Z=one, T=fconst(0))
+    targets = [("EdwardsPoint", r"<[\w:]*edwards::EdwardsPoint as group::Group>::is_identity$", r"impl subtle::ConstantTimeEq for [\w:]*edwards::EdwardsPoint>::ct_eq$|edwards::EdwardsPoint as subtle::ConstantTimeEq>::ct_eq$", lambda v: v),
+               ("SubgroupPoint", r"<[\w:]*edwards::SubgroupPoint as group::Group>::is_identity$", r"impl subtle::ConstantTimeEq for [\w:]*edwards::EdwardsPoint>::ct_eq$|edwards::EdwardsPoint as subtle::ConstantTimeEq>::ct_eq$", lambda v: ("st", (v,))),
+               ("RistrettoPoint", r"<[\w:]*ristretto::RistrettoPoint as group::Group>::is_identity$", r"impl subtle::ConstantTimeEq for [\w:]*ristretto::RistrettoPoint>::ct_eq$|ristretto::RistrettoPoint as subtle::ConstantTimeEq>::ct_eq$", lambda v: ("st", (v,)))]
+    for name, rx, eq_rx, wrap in targets:
+        fs = [f for f in F.fns.values() if "mir" in f and f["kind"] != "Closure" and re.search(rx, f["path"])]
+        es = [f for f in F.fns.values() if "mir" in f and f["kind"] != "Closure" and re.search(eq_rx, f["path"])]
+        inst = "%s as Group>::is_identity" % name
+        if len(fs) != 1 or len(es) != 1:
+            yield inst, None, False, "expected one is_identity and one ct_eq impl, found %d / %d" % (len(fs), len(es))
+            continue
+        try:
+            got = comparison_signature(F, fe_ty, fs[0], [wrap(gen())])
+            if name == "SubgroupPoint":
+                want = comparison_signature(F, fe_ty, es[0], [gen(), ident])
+            else:
+                want = comparison_signature(F, fe_ty, es[0], [wrap(gen()), wrap(ident)])
+        except Exception as e:
+            yield inst, fs[0], False, "analysis failed: %r" % (e,)
+            continue
+        if got is None or want is None or not want[0]:
+            yield inst, fs[0], False, "the comparisons left the domain"
+        elif got == want:
+            yield inst, fs[0], True, "makes exactly the %d field comparisons of ct_eq(self, identity), combined the same way (%s)" % (len(want[0]), ", ".join(want[1]) or "single test")
+        else:
+            def sh(sig):
+                return "[%s | %s]" % ("; ".join(show(("fe", n, dn), 3) + " = 0" for n, dn in sig[0]), ",".join(sig[1]))
+            yield inst, fs[0], False, "the predicate tests %s, but equality with the identity tests %s" % (sh(got), sh(want))
+
+
+def ristretto_batch(F, fe_ty):
+    """yield (instance, fn, ok, msg): RistrettoPoint::double_and_compress_batch on one symbolic point, per sign scenario (the batched inversion is
+    followed through FieldElement::batch_invert in the same domain)"""
+    sq = lambda a: fmul(a, a)
+    iv, isad = fvar("i"), fvar("isad")
+    X0, Y0, Z0, T0 = (fvar(n) for n in "XYZT")
+    pt = ("st", (mk(F, EP, X=X0, Y=Y0, Z=Z0, T=T0),))
+    for n1 in (0, 1):
+        for n2 in (0, 1):
+            for sn in (0, 1):
+                inst = "RistrettoPoint::double_and_compress_batch[eg Zinv negative %d, h e Zinv negative %d, s negative %d]" % (n1, n2, sn)
+                arg = ("it", "cvals", ("arr", (pt,)), I(0), I(1), 0)
+                f, logged, ret, ip = encoded_values(F, fe_ty, r"ristretto::RistrettoPoint::double_and_compress_batch$", [arg], neg_seq=[n1, n2, sn])
+                if logged is None:
+                    yield inst, f, False, ip
+                    continue
+                e = fmul(X0, fadd(Y0, Y0))
+                dTT = fmul(sq(T0), d)
+                f_ = fadd(sq(Z0), dTT)
+                g = fadd(sq(Y0), sq(X0))
+                h = fadd(sq(Z0), dTT, -1)
+                eg, fh = fmul(e, g), fmul(f_, h)
+                inv = finv(fmul(eg, fh))
+                Zinv, Tinv = fmul(eg, inv), fmul(fh, inv)
+                if n1:
+                    e2, g2, h2, magic = g, fneg(e), fmul(f_, iv), iv
+                else:
+                    e2, g2, h2, magic = e, g, h, isad
+                t2 = fmul(fmul(h2, e2), Zinv)
+                if n2:
+                    g2 = fneg(g2)
+                sv = fmul(fadd(h2, g2, -1), fmul(magic, fmul(g2, Tinv)))
+                negs = [a[0] for nm, a in logged if nm.endswith("is_negative")]
+                enc = [a[0] for nm, a in logged if nm.endswith("as_bytes")]
+                bad = []
+                if len(negs) != 3 or not same(negs[0], fmul(eg, Zinv)) or not same(negs[1], t2) or not same(negs[2], sv):
+                    bad.append("the sign tests are not on (eg Zinv, h e Zinv, s)")
+                if len(enc) != 1 or not same(enc[0], fneg(sv) if sn else sv):
+                    bad.append("the encoded value is %s, expected |(h - g) magic g Tinv|" % (show(enc[0], 3) if enc and enc[0] is not None else "?"))
+                yield inst, f, not bad, "; ".join(bad) if bad else "s = |(h - g) (magic g Tinv)| with e, f, g, h of the doubled point, Zinv = eg/(eg fh), Tinv = fh/(eg fh) through batch_invert, and the rotation / sign selection of the single-point encoder"
